@@ -11,8 +11,23 @@ by the correspondence check only.
 -/
 import WnVerif.Lemmas.LmfAttr
 import WnVerif.Lemmas.Decimal
+import WnVerif.Gen.Lmf
 namespace WnVerif.Props.C02
 open WnVerif.Lmf WnVerif.Doc
+
+/-! ### tie to `wn/lmf.py`: metadata attribute names, and the elements that carry metadata / text -/
+
+theorem C02_gen_meta_keys : Gen.lmf_meta_dict_keys = metaKeyNames := by decide
+
+/-- every attribute name the loader maps into `meta` (for each version's namespace table) is one
+that `pickKey` accepts, with the same dictionary key -/
+theorem C02_gen_ns_attrs : ∀ p ∈ Gen.lmf_ns_attrs_1_3, pickKey (if p.2 == "status" || p.2 == "note" || p.2 == "confidenceScore" then p.2 else "dc:" ++ p.2) = some p.2 := by
+  decide
+
+/-- the elements on which the model reads metadata / character data are `_META_ELEMS` / `_CDATA_ELEMS` -/
+theorem C02_gen_meta_elems : Gen.lmf_meta_elems = ["Count", "Definition", "Example", "ILIDefinition", "LexicalEntry", "Lexicon",
+    "LexiconExtension", "Sense", "SenseRelation", "Synset", "SynsetRelation"] ∧
+    Gen.lmf_cdata_elems = ["Count", "Definition", "Example", "ILIDefinition", "Pronunciation", "Tag"] := by decide
 
 /-! ### generic helpers -/
 
